@@ -42,6 +42,8 @@ def do_op(f, op):
     k = op[0]
     if k == "makedir":
         f.makedir(op[1])
+    elif k == "makedirs":
+        f.makedirs(op[1])
     elif k == "create":
         f.create(op[1])
     elif k == "write":
@@ -190,7 +192,7 @@ def run(ctx):
     rng = ctx.rng
     for ft in ((12, 32) if ctx.tier == "quick" else (12, 16, 32)):
         img, meta = C13.base_image(rng, ft)
-        for pi in range(ctx.scale(5, 24)):
+        for pi in range(ctx.scale(6, 24)):
             if ctx.time_left() < 15:
                 break
             progs = writer_progs(rng, rng.choice([2, 2, 3]))
@@ -210,12 +212,15 @@ def run(ctx):
             if pi == 4:      # an append that GROWS a file which already owns clusters (the allocation happens inside the data write) against another
                 # allocation, with line pre-emptions in the allocator (C19-m8: the filesystem lock released around the payload copy)
                 progs = [[("append", "/A.TXT", (b"G" * 1500).hex())], [("write", "/E/W4.BIN", (b"H" * 1500).hex())]]
+            if pi == 5:      # makedirs — its look-ups run under the base-class lock only — into a directory nobody has looked into yet, against a file
+                # created in that directory (C19-m9: the first look parsed the directory BEFORE taking the filesystem lock and stored the stale list)
+                progs = [[("makedirs", "/E/sub five/deeper")], [("write", "/E/W5.BIN", (b"I" * 700).hex())]]
             seq = sequential_trees(img, progs)
             rep0 = dict(volume=meta, programs=progs)
             sc = one_schedule(ctx, img, meta, progs, seq, S.preempt_policy({}), False, label, dict(rep0, preempt={}))
             n = sc.step
             pts = list(range(1, n + 1))
-            cap = ctx.scale(60 if pi not in (2, 3, 4) else 700, 400 if pi not in (2, 3, 4) else 3000)     # the handle-write / namespace-operation program: every single pre-emption point
+            cap = ctx.scale(60 if pi not in (2, 3, 4, 5) else 700, 400 if pi not in (2, 3, 4, 5) else 3000)     # the handle-write / namespace-operation program: every single pre-emption point
             if len(pts) > cap:
                 pts = sorted(rng.sample(pts, cap))
             before = len(ctx.violations)
@@ -224,7 +229,7 @@ def run(ctx):
                 if len(ctx.violations) > before + 2:
                     break
             # one pre-emption at distinct source lines of the shared in-memory tree (see C18), for the two fixed programs; thorough: all programs
-            if pi in (0, 1, 2, 3, 4) or ctx.tier == "thorough":
+            if pi in (0, 1, 2, 3, 4, 5) or ctx.tier == "thorough":
                 scb = S.Sched(len(progs), S.preempt_policy({}))
                 scb.record_kinds = True
                 fb, _ = mount_rw(img, scb)
